@@ -66,7 +66,9 @@ CHECKS["C15"] = dict(
          "candles. Correspondence: manager with lifespan, all timeframe/fill variants (check_mgr) and every indicator kind fed candle by "
          "candle under a lifespan that always keeps its look-back (check_ind); falsifier: window against an untrimmed twin after every "
          "append, and readings on the retained candles equal to the untrimmed twin's for all 27 kinds.",
-    note="Clause 2 (readings unchanged while the look-back is retained) is decided by correspondence + falsifier; no theorem yet. Axioms: none.",
+    note="Clause 2 is proved at the level of one reading for ten classes without helper series (value at an index unchanged by "
+         "dropping a prefix that leaves lookback(class) candles); for the other classes and for whole runs it is decided by "
+         "correspondence + falsifier. Axioms: none.",
     technique="Coq proof (drop-while = filter on sorted lists) + vm_compute correspondence + falsifier",
     design="5/C15")
 
